@@ -134,6 +134,12 @@ def eval_pred(model, module, e, rep, env, depth=0):
     if isinstance(e, ast.Lambda):
         p = e.args.args[0].arg if e.args.args else None
         return eval_pred(model, module, e.body, rep, {p: "obj"}, depth + 1)
+    if isinstance(e, ast.Name) and not env and depth == 0:
+        # a named predicate function used as the identifier instead of a lambda
+        r = model.resolve(module, e.id)
+        if r is not None and r[0] == "func" and len(r[-1].node.args.args) == 1:
+            f = r[-1]
+            return _eval_body(model, f.module, list(f.node.body), rep, {f.node.args.args[0].arg: "obj"}, depth + 1)
     if isinstance(e, ast.BoolOp):
         vals = [eval_pred(model, module, v, rep, env, depth + 1) for v in e.values]
         out = vals[0]
